@@ -82,7 +82,7 @@ def run(run):
                     pass
         return False
 
-    def scenario(fn, enum_nodes, tainted, extra=None):
+    def scenario(fn, enum_nodes, tainted, extra=None, follow=False):
         """results and reachable nodes of fn when the nodes in enum_nodes (id -> variant) have the given variants, every taint
         test is `tainted`, and the tracked state is not empty"""
         hits = {"taint": 0}
@@ -98,7 +98,7 @@ def run(run):
             if extra is not None:
                 return extra(n)
             return None
-        res, nodes = PE.Spec(F, assume=assume).results(fn["body"], {})
+        res, nodes = PE.Spec(F, assume=assume, follow_calls=follow).results(fn["body"], {})
         return res, nodes, hits
 
     def scrutinees_of(fn, adt_suffix):
@@ -358,25 +358,42 @@ def run(run):
     run.guarded("R3", r3)
 
     def r4():
+        from .lib import mayflow as MF
         for name in ("update_call_generic", "update_call"):
             fn = F.fn(name, mod=CTX)
-            t = S.Sym(F).term(fn["body"])
             site = F.loc(fn["body"])
-            ites = [x for x in S.subterms(t) if isinstance(x, tuple) and x and x[0] == "ite" and is_call(x[1], "check_generic_function_params_for_taint")]
-            run.check("R4", "%s|params-checked" % name, bool(ites) and any(is_call(y, "generate_cwe_warning") for y in S.subterms(ites[0][2])) if ites else False, "%s must warn when a calling-convention parameter register is tainted" % name, site)
+            res_t, nodes_t, hits_t = scenario(fn, {}, True, follow=True)
+            res_f, nodes_f, hits_f = scenario(fn, {}, False, follow=True)
+            kinds_t = [PE.option_kind(x) for x in res_t]
+            kinds_f = [PE.option_kind(x) for x in res_f]
+            generic_test = any(T.is_call(x, "check_generic_function_params_for_taint") for x in nodes_t)
+            warns_t = any(T.is_call(x, "generate_cwe_warning") for x in nodes_t)
+            warns_f = any(T.is_call(x, "generate_cwe_warning") for x in nodes_f)
+            run.check("R4", "%s|params-checked" % name, generic_test and hits_t["taint"] > 0 and warns_t and not warns_f, "%s must warn exactly when a calling-convention parameter register is tainted (parameter test reached: %s, warning when tainted: %s, warning when untainted: %s)" % (name, generic_test, warns_t, warns_f), site)
             if name == "update_call":
-                run.check("R4", "update_call|intraprocedural", is_none_adt(t), "the analysis is intraprocedural: update_call must not propagate into the callee (None)", site)
+                allnone = bool(kinds_t) and all(k_ == "None" for k_ in kinds_t + kinds_f)
+                run.check("R4", "update_call|intraprocedural", allnone, "the analysis is intraprocedural: update_call must not propagate into the callee (None)", site)
             else:
-                if ites:
-                    run.check("R4", "update_call_generic|stops-after-warning", is_none_adt(ites[0][2]), "after the warning propagation stops", site)
-                    clob = any(is_call(y, "remove_non_callee_saved_taint") for y in S.subterms(ites[0][3]))
-                    run.check("R4", "update_call_generic|clobber-non-callee-saved", clob, "after a call the dependence ends for registers the callee may clobber", site)
+                if kinds_t and all(k_ == "None" for k_ in kinds_t):
+                    run.holds("R4", "update_call_generic|stops-after-warning", "", site)
+                elif any(isinstance(k_, tuple) for k_ in kinds_t):
+                    run.violated("R4", "update_call_generic|stops-after-warning", "after the warning the propagation must stop (None); a state is still propagated", site)
+                else:
+                    run.undecided("R4", "update_call_generic|stops-after-warning", "results %s" % kinds_t, site)
+                clob = any(T.is_call(x, "remove_non_callee_saved_taint") for x in nodes_f)
+                cont = bool(kinds_f) and all(isinstance(k_, tuple) for k_ in kinds_f)
+                run.check("R4", "update_call_generic|clobber-non-callee-saved", clob and cont, "after a call without tainted parameters the propagation continues and the dependence ends for registers the callee may clobber", site)
         fn = F.fn("check_generic_function_params_for_taint", mod="analysis::taint::state")
-        t = S.Sym(F).term(fn["body"])
-        ints = any(isinstance(x, tuple) and x and x[0] == "field" and x[2] == "integer_parameter_register" for x in S.subterms(t))
-        floats = any(isinstance(x, tuple) and x and x[0] == "field" and x[2] == "float_parameter_register" for x in S.subterms(t)) and any(is_call(x, "input_vars") for x in S.subterms(t))
-        run.check("R4", "generic-params|integer-registers", ints, "integer parameter registers of the calling convention must be checked", F.loc(fn["body"]))
-        run.check("R4", "generic-params|float-registers", floats, "the input registers of the float parameter expressions of the calling convention must be checked", F.loc(fn["body"]))
+        checks = [x for x in T.walk_fn(F, fn) if T.is_call(x, "check_register_list_for_taint")]
+        for fld, key in (("integer_parameter_register", "integer-registers"), ("float_parameter_register", "float-registers")):
+            mf = MF.MayFlow(F, seed=lambda y, fld=fld: y.get("k") == "Field" and y.get("fn") == fld)
+            mf.run(fn, set())
+            ids = mf.reached.get(fn["path"], set())
+            ok = any(mf.mentions(a, ids) for c in checks for a in c["a"][1:])
+            if fld.startswith("float"):
+                ok = ok and any(T.is_call(x, "input_vars") and mf.mentions(x, ids) for x in T.walk_fn(F, fn))
+            what = "integer parameter registers of the calling convention must be checked" if fld.startswith("integer") else "the input registers of the float parameter expressions of the calling convention must be checked"
+            run.check("R4", "generic-params|%s" % key, ok, what, F.loc(fn["body"]))
 
     run.guarded("R4", r4)
 
@@ -406,9 +423,33 @@ def run(run):
             if name == "update_def_assign" and val is not None:
                 run.check("R6", "update_def_assign|taint-of-value-on-old-state", is_call(val, "eval") and val[2][0][0] == "var" and val[2][0][1] == "state" and val[2][1][0] == "var" and val[2][1][1] == "value", "the new taint of the variable is the taint of the assigned expression in the state before the assignment; found %s" % fmt(val), site)
         fn = F.fn("set_register_taint", adt="State", mod="analysis::taint::state")
-        t = S.value(S.Sym(F).term(fn["body"]))
-        ok = t[0] == "ite" and is_call(t[1], "is_top") and any(is_call(y, "remove") for y in S.subterms(t[2])) and any(is_call(y, "insert") for y in S.subterms(t[3]))
-        run.check("R6", "set_register_taint|untainted-removes-entry", ok, "writing an untainted value must remove the register's taint entry (dependence ends), a tainted one must replace it; found %s" % fmt(t)[:160], F.loc(fn["body"]))
+        tid_ = param_id(fn, "taint")
+        if tid_ is None:
+            tids = [b[0] for p_ in fn["params"] if p_.get("p") for b in T.pat_bindings(p_["p"]) if F.tyi(p_["p"]["t"]).endswith("Taint")]
+            tid_ = tids[0] if tids else None
+
+        def taint_case(top):
+            hits = {"n": 0}
+
+            def assume(n):
+                k = n.get("k")
+                if k == "Call" and n.get("n") in ("is_top", "is_tainted") and n.get("a") and T.root_var_id(n["a"][0]) == tid_:
+                    hits["n"] += 1
+                    return ("bool", top == (n["n"] == "is_top"))
+                if k in ("Var", "Upvar") and n.get("id") == tid_ and (F.ty(n) or "").replace("&", "").strip().endswith("Taint"):
+                    hits["n"] += 1
+                    return ("enum", "Top" if top else "Tainted")
+                return None
+            nodes = PE.Spec(F, assume=assume).reach(fn["body"], {})
+            rem = any(T.is_call(x, "remove") for x in nodes)
+            ins = any(T.is_call(x, ("insert", "entry")) for x in nodes)
+            return rem, ins, hits["n"]
+        rem_t, ins_t, h1 = taint_case(True)
+        rem_f, ins_f, h2 = taint_case(False)
+        if not h1 and not h2 and not (rem_t and ins_t):
+            run.undecided("R6", "set_register_taint|untainted-removes-entry", "no test of the written taint value found", F.loc(fn["body"]))
+        else:
+            run.check("R6", "set_register_taint|untainted-removes-entry", rem_t and not ins_t and ins_f and not rem_f, "writing an untainted value must remove the register's taint entry (dependence ends), a tainted one must replace it; untainted: remove=%s insert=%s, tainted: remove=%s insert=%s" % (rem_t, ins_t, rem_f, ins_f), F.loc(fn["body"]))
         # generic update_def dispatch: each Def variant goes to its own transfer and then to update_def_post(old, new)
         cands = [f for f in F.find_fns(name="update_def", mod="analysis::taint") if f["dk"] != "Closure"]
         if not cands:
